@@ -13,6 +13,7 @@ package raft
 import (
 	"bytes"
 	"encoding/json"
+	rlog "github.com/santhosh-tekuri/raft/log"
 	"fmt"
 	"io"
 	"io/ioutil"
@@ -147,6 +148,9 @@ type simCluster struct {
 	crashAt    *crashSpec
 	crashFired bool
 	crashImage string
+	asyncCrash uint64
+	fair       map[string]interface{}
+	armSeq     int
 
 	rec     *json.Encoder
 	lastEv  map[string]interface{}
@@ -249,7 +253,34 @@ func (c *simCluster) close() {
 
 var simHooksInstalled bool
 
+// goroutine id of the caller (the harness thread is the only one allowed to unwind a handler by panic)
+func curGoID() uint64 {
+	var buf [64]byte
+	n := runtime.Stack(buf[:], false)
+	var id uint64
+	fmt.Sscanf(string(buf[:n]), "goroutine %d ", &id)
+	return id
+}
+
+var simHarnessGoID uint64
+
 func installSimHooks() {
+	rlog.SetVerifHook(func(point string, args ...interface{}) {
+		c := simCur
+		if c == nil || len(args) == 0 {
+			return
+		}
+		name, ok := args[0].(string)
+		if !ok {
+			return
+		}
+		for id, n := range c.nodes {
+			if n.up && strings.HasPrefix(name, n.dir+string(os.PathSeparator)) {
+				c.maybeCrash(point, id)
+				return
+			}
+		}
+	})
 	verifReplHook = func(r *replication, req *appendReq) bool {
 		c := simCur
 		if c == nil {
@@ -363,15 +394,31 @@ func (c *simCluster) onHook(point string, args ...interface{}) {
 	}
 	// crash injection
 	if cs := c.crashAt; cs != nil && !c.crashFired && cs.point == point {
-		if id, ok := c.hookNode(args...); ok && id == cs.node {
-			cs.seen++
-			if cs.seen == cs.hit {
-				c.crashFired = true
-				c.crashImage = c.copyDir(c.nodes[id].dir)
-				panic(simCrash{point})
-			}
+		if id, ok := c.hookNode(args...); ok {
+			c.maybeCrash(point, id)
 		}
 	}
+}
+
+// maybeCrash: the armed crash point is reached by node id: take the crash image (what a process kill at this
+// instant leaves on disk) and stop the node - by unwinding the handler when we are on the harness thread,
+// by parking the goroutine for ever otherwise (snapshot goroutine).
+func (c *simCluster) maybeCrash(point string, id uint64) {
+	cs := c.crashAt
+	if cs == nil || c.crashFired || cs.point != point || cs.node != id {
+		return
+	}
+	cs.seen++
+	if cs.seen != cs.hit {
+		return
+	}
+	c.crashFired = true
+	c.crashImage = c.copyDir(c.nodes[id].dir)
+	if curGoID() == simHarnessGoID {
+		panic(simCrash{point})
+	}
+	c.asyncCrash = id
+	select {} // this goroutine belongs to a dead process now
 }
 
 // hookNode finds which node a hook call belongs to.
@@ -432,9 +479,7 @@ func (c *simCluster) dialFnFor(from uint64) dialFn {
 		}
 		rpc := list[0]
 		c.undialed[k] = list[1:]
-		c.connSeq++
-		sc := newSimConn(from, to)
-		sc.id = c.connSeq
+		sc := newSimConn(from, to) // (no id: dial order of the vote goroutines is up to the Go scheduler)
 		sc.pending = rpc
 		rpc.conn = sc
 		return sc, nil
@@ -551,10 +596,11 @@ func (n *simNode) event(fn func()) {
 			if hs, ok := v.(harnessStuck); ok {
 				panic(hs)
 			}
-			if c.crashFired && n.id == c.crashAt.node {
+			if c.crashFired && c.crashAt != nil && n.id == c.crashAt.node {
 				// injected crash: restart will use the image
+				c.note(map[string]interface{}{"kind": "crashPoint", "n": n.id, "point": c.crashAt.point})
 				n.kill()
-				n.downProj = nil
+				n.downProj = c.projectImage(n, c.crashImage)
 				return
 			}
 			n.died = "raft"
@@ -578,13 +624,77 @@ func (n *simNode) post() {
 	if r.isClosed() {
 		// stateLoop returns: deferred release of the current role and of Raft
 		n.role(n.cur).release()
-		if r.snapTakenCh == nil {
-			r.release()
+		if r.snapTakenCh != nil {
+			// Raft.release waits for the snapshot in progress; the FSM goroutine is still running meanwhile
+			n.finishSnapshot()
+		}
+		r.release()
+		// Serve: the FSM channel is closed only now; the FSM goroutine finishes what was queued (answering tasks)
+		for n.up && n.died == "" && n.fsmStep() {
 		}
 		n.stopped = fmt.Sprintf("%v", r.closeReason)
 		n.c.note(map[string]interface{}{"kind": "stopped", "n": n.id, "reason": n.stopped})
 		n.kill()
 	}
+}
+
+// finishSnapshot lets the snapshot goroutine of a closing node run to completion (what Raft.release waits for).
+func (n *simNode) finishSnapshot() {
+	if n.snapPhase == "start" {
+		n.c.stepSnapG(n.id, "ask")
+	}
+	for n.snapPhase == "asked" && n.fsmStep() {
+	}
+	if n.snapPhase == "got" || n.snapPhase == "err" {
+		n.c.stepSnapG(n.id, "store")
+	}
+	n.snapPhase = "idle"
+}
+
+// projectImage: what a restart will find in a crash image (durable term/vote, log, snapshot), read with the real
+// openStorage on a scratch copy so that the image itself stays untouched.
+func (c *simCluster) projectImage(n *simNode, image string) *pNodeState {
+	p := pNodeState{ID: n.id, Inc: n.inc, State: "D", Log: []pEntry{}, Fsm: pFsm{Cmds: []int{}}, Bnds: []uint64{}, SnapG: "idle",
+		Snap: pSnap{Cfg: pCfg{Nodes: []pNode{}}, Cmds: []int{}}, CfgC: pCfg{Nodes: []pNode{}}, CfgL: pCfg{Nodes: []pNode{}}, Ldr: pLdr{NeQ: []pNe{}, Repls: []pRepl{}}}
+	tmp := image + ".view"
+	_ = os.RemoveAll(tmp)
+	if out, err := exec.Command("cp", "-r", image, tmp).CombinedOutput(); err != nil {
+		panic(harnessStuck(fmt.Sprintf("cp: %v %s", err, out)))
+	}
+	defer os.RemoveAll(tmp)
+	st, err := openStorage(tmp, c.opt)
+	if err != nil {
+		p.Died = "" // the restart step will report the failure
+		return &p
+	}
+	defer st.log.VerifCloseNoSync()
+	p.Term, p.Vote = st.term, st.votedFor
+	p.Disk = pDisk{Term: st.term, Vote: st.votedFor}
+	p.LogPrev, p.Last, p.LastTerm, p.Synced = st.log.PrevIndex(), st.lastLogIndex, st.lastLogTerm, st.log.LastIndex()
+	for i := st.log.PrevIndex() + 1; i <= st.log.LastIndex(); i++ {
+		e := &entry{}
+		if err := st.getEntry(i, e); err != nil {
+			break
+		}
+		pe := pEntry{I: e.index, T: e.term, Y: typName(e.typ), C: []pNode{}}
+		if e.typ == entryUpdate {
+			pe.V = parseCmd(e.data)
+		} else if e.typ == entryConfig {
+			var cfg Config
+			if cfg.decode(e) == nil {
+				pe.C = projCfg(cfg).Nodes
+			}
+		}
+		p.Log = append(p.Log, pe)
+	}
+	for _, sg := range st.log.VerifSegments() {
+		p.Bnds = append(p.Bnds, uint64(sg[0]))
+	}
+	if meta, err := st.snaps.meta(); err == nil {
+		p.Snap = pSnap{Index: st.snaps.index, Term: st.snaps.term, Cfg: projCfg(meta.config), Cmds: readSnapCmds(st.snaps.dir, st.snaps.index)}
+	}
+	p.CfgC, p.CfgL = projCfg(st.configs.Committed), projCfg(st.configs.Latest)
+	return &p
 }
 
 // kill drops the node the way a process kill does: nothing is flushed.
@@ -593,7 +703,15 @@ func (n *simNode) kill() {
 		return
 	}
 	c := n.c
-	p := c.project(n)
+	var p pNodeState
+	if c.crashFired && c.crashAt != nil && c.crashAt.node == n.id {
+		// killed in the middle of a storage operation: the in-memory log structures are inconsistent (segments
+		// unmapped but still linked); the caller projects the crash image instead
+		p = pNodeState{ID: n.id, Inc: n.inc, Log: []pEntry{}, Bnds: []uint64{}, SnapG: "idle",
+			Snap: pSnap{Cfg: pCfg{Nodes: []pNode{}}, Cmds: []int{}}, CfgC: pCfg{Nodes: []pNode{}}, CfgL: pCfg{Nodes: []pNode{}}}
+	} else {
+		p = c.project(n)
+	}
 	n.up = false
 	// what a restart will find
 	p.Up = false
